@@ -1212,6 +1212,7 @@ def generate(outdir, stub=None, probe=False, nohints=None):
         if nm in calls:
             continue
         ctx.inlinable[nm] = fn
+    inline_stats = {}
     table = {}
     by_mod = {}
     missing = []
@@ -1309,13 +1310,17 @@ def generate(outdir, stub=None, probe=False, nohints=None):
             text = text.replace("*/\n", "*/\n#[verifier::external_body]\n", 1)
         entry["rewrites"] = r0log + r.log
         inl = getattr(r, "inlined", [])
-        if inl:
+        if ctx.inlinable:
             mentions = [x["method"] for x in walk_tree(fn.node["tree"]) if x["k"] == "MethodCall"] \
                 + [compact(x["func_text"]) for x in walk_tree(fn.node["tree"]) if x["k"] == "Call" and "::" not in x["func_text"]] \
                 + [compact(x.get("text", "")).split("::")[-1] for x in walk_tree(fn.node["tree"]) if x["k"] == "Path" and "::" in x.get("text", "")]
             done = [nm for nm in set(inl) if mentions.count(nm) == inl.count(nm)]
             entry["callees"] = [c for c in entry.get("callees", []) if c not in done]
             entry["inlined"] = sorted(set(inl))
+            for nm in ctx.inlinable:
+                tot = inline_stats.setdefault(nm, [0, 0])
+                tot[0] += mentions.count(nm)
+                tot[1] += inl.count(nm)
         entry["nopanic"] = [t.strip() for t in rec.attrs.get("nopanic", "").split(",") if t.strip()]
         entry["sites"] = count_sites(fn.node["tree"])
         entry["gen_name"] = rec.attrs.get("name", fn.name)
@@ -1348,6 +1353,11 @@ def generate(outdir, stub=None, probe=False, nohints=None):
             sub = "%s_%d" % (base, n)
         entry["module"] = fn.mod + "::" + sub
         by_mod.setdefault(fn.mod, []).append((sub, text, fn.impl is None))
+    # a helper whose every mention was expanded in place (R20) is verified in context at each call site; what its
+    # context-free copy cannot prove is of no consequence
+    for nm, (tot, done) in inline_stats.items():
+        if tot > 0 and tot == done:
+            table[ctx.inlinable[nm].key]["expanded_everywhere"] = True
     # R9: trait methods that are not overridden but under contract: the default body from core is what runs
     for key, rec in recs.items():
         if rec.attrs.get("synth") and key not in fnkeys:
